@@ -47,6 +47,18 @@ def setup(world):
     install_re_models(world)
     world.opaque_attrs['lexdata'] = lambda recv, it: models.apply_uf(
         'a.lexdata', (recv,), 'Val')
+
+    def bytes_decode(recv, args, kw, it):
+        # T-conv: bytes.decode(codec) returns a string or raises
+        # UnicodeDecodeError (any codec other than a total one)
+        world.trusted_used.add('T-conv: bytes.decode() returns a string or '
+                               'raises UnicodeDecodeError')
+        bad = z3.Bool(S.fresh_name('bytes_undecodable'))
+        if it.branch(bad):
+            it.raise_('UnicodeDecodeError')
+        return SStr(models.apply_uf('bytes.decode', (recv,) + tuple(args),
+                                    'Str').t)
+    world.opaque_sigs['decode'] = bytes_decode
     for cls in ('Constant', 'KeywordConstant', 'GetContextValue', 'Wrap',
                 'IndexExpression', 'ListExpression', 'MapExpression',
                 'MappingRuleExpression', 'Function', 'BinaryOperator',
